@@ -43,18 +43,21 @@ def _check_system(spec: project.Spec, system: Any, res: Optional[core.Res]) -> L
         if res is not None:
             res.c(name, n)
     allo = system.allobjects
+    not_moved: set = set()
     for uid, (rmid, exported) in spec.moved.items():
         dmid, qual, kind = spec.defs[uid]
         old = spec.def_fullname(uid)
         new = f'{spec.modname(rmid)}.{exported}'
         c('moved_objects_checked')
         o = allo.get(new)
+        star = system.__dict__.get('_vf_star_in_progress', []) + system.__dict__.get('_vf_from_in_progress', [])
+        if (o is None or (old in allo and allo[old] is not o)) and (spec.modname(rmid), spec.modname(dmid)) in star:
+            # (what sits at the exported name, if anything, is something the re-exporting module bound itself before the import)
+            out.append(('import-from-module-in-progress', f'{old} is re-exported as {new} by an import that ran while {spec.modname(dmid)} was still being processed (import cycle): it is not moved to {new}'))
+            not_moved.add(uid)
+            continue
         if o is None:
-            star = system.__dict__.get('_vf_star_in_progress', []) + system.__dict__.get('_vf_from_in_progress', [])
-            if (spec.modname(rmid), spec.modname(dmid)) in star:
-                out.append(('import-from-module-in-progress', f'{old} is re-exported as {new} by an import that ran while {spec.modname(dmid)} was still being processed (import cycle): nothing is documented at {new}'))
-            else:
-                out.append(('not-at-exported-name', f'{old} is re-exported as {new} but nothing is documented there'))
+            out.append(('not-at-exported-name', f'{old} is re-exported as {new} but nothing is documented there'))
             continue
         if o.parent is None or o.parent.contents.get(o.name) is not o:
             out.append(('exported-object-not-in-its-module', f'{new} is registered but is not an entry of {o.parent!r}: it would be documented nowhere'))
@@ -85,6 +88,8 @@ def _check_system(spec: project.Spec, system: Any, res: Optional[core.Res]) -> L
     # consumers
     for cons in spec.notes.get('consumers', []):
         uid = cons['uid']
+        if uid in not_moved:
+            continue
         rmid, exported = spec.moved[uid]
         new = f'{spec.modname(rmid)}.{exported}'
         old = spec.def_fullname(uid)
@@ -131,6 +136,8 @@ def _check_system(spec: project.Spec, system: Any, res: Optional[core.Res]) -> L
         from pydoctor.stanutils import flatten
         from pydoctor.templatewriter import pages
     for ins in spec.notes.get('insiders', []):
+        if ins['uid'] in not_moved:
+            continue
         rmid, exported = spec.moved[ins['uid']]
         new = f'{spec.modname(rmid)}.{exported}'
         target = allo.get(new)
